@@ -228,12 +228,19 @@ func (f *Frame) execBlock(c *cursor, b *ssa.BasicBlock) {
 		}
 		f.hdrHavoc[b] = c.st.clone()
 	}
-	for _, in := range b.Instrs {
+	firstReal := true
+	for idx, in := range b.Instrs {
 		if f.e.unsupported != "" {
 			return
 		}
 		if _, ok := in.(*ssa.Phi); ok {
 			continue
+		}
+		if f.top {
+			if _, isDbg := in.(*ssa.DebugRef); !isDbg {
+				f.checkAnchors(c, b, idx, in, firstReal)
+				firstReal = false
+			}
 		}
 		if done := f.exec(c, in); done {
 			break
@@ -367,7 +374,7 @@ func (f *Frame) exec(c *cursor, in ssa.Instruction) bool {
 		k, v := e.U.sortOf(mt.Key(), false), e.U.sortOf(mt.Elem(), false)
 		fam := mapHasFam(k, v)
 		srt := arraySort(SInt, arraySort(k, SBool))
-		e.setFamily(st, fam, store(e.family(st, fam, srt), r, Term{fmt.Sprintf("((as const (Array %s Bool)) false)", k), arraySort(k, SBool)}))
+		e.setFamily(st, fam, store(e.family(st, fam, srt), r, e.U.constArray(k, SBool, tFalse)))
 		return false
 	case *ssa.MakeChan:
 		f.vals[x] = f.freshRef(f.name(x), st)
@@ -380,7 +387,7 @@ func (f *Frame) exec(c *cursor, in ssa.Instruction) bool {
 		s := e.U.sortOf(et, false)
 		fam := memFam(s)
 		z := e.U.zeroOf(et, s)
-		e.setFamily(st, fam, store(e.family(st, fam, memSort(s)), r, Term{fmt.Sprintf("((as const (Array Int %s)) %s)", s, z.S), arraySort(SInt, s)}))
+		e.setFamily(st, fam, store(e.family(st, fam, memSort(s)), r, e.U.constArray(SInt, s, z)))
 		f.setVal(x, mkSlice(r, intLit(0), ln, cp))
 		return false
 	case *ssa.FieldAddr:
@@ -1199,4 +1206,85 @@ func addrPrivate(v ssa.Value, depth int) bool {
 		}
 	}
 	return true
+}
+
+// checkAnchors: site flags and anchored assertions of the top-level contract.
+func (f *Frame) checkAnchors(c *cursor, b *ssa.BasicBlock, idx int, in ssa.Instruction, first bool) {
+	sp := f.e.Spec
+	if sp == nil || (len(sp.Sites) == 0 && len(sp.Asserts) == 0) {
+		return
+	}
+	match := func(anchor string) bool {
+		switch {
+		case strings.HasPrefix(anchor, "call "):
+			want := strings.TrimSpace(anchor[5:])
+			var cc *ssa.CallCommon
+			switch x := in.(type) {
+			case *ssa.Call:
+				cc = &x.Call
+			case *ssa.Defer:
+				cc = &x.Call
+			}
+			if cc == nil {
+				return false
+			}
+			return calleeName(cc) == want
+		case strings.HasPrefix(anchor, "label "):
+			return first && b.Comment == strings.TrimSpace(anchor[6:])
+		case anchor == "return":
+			_, ok := in.(*ssa.Return)
+			return ok
+		}
+		return false
+	}
+	for _, s := range sp.Sites {
+		if match(s.Anchor) {
+			s.Used = true
+			if old, ok := f.sites[s.Name]; ok {
+				f.sites[s.Name] = f.e.define("site."+s.Name, or(old, c.reach))
+			} else {
+				f.sites[s.Name] = c.reach
+			}
+		}
+	}
+	for _, a := range sp.Asserts {
+		if !match(a.Anchor) {
+			continue
+		}
+		a.Used = true
+		env := &SpecEnv{f: f, names: map[string]Term{}, types: map[string]types.Type{}, cur: c.st, old: f.entry}
+		env.lookup = f.resolverAtPoint(b, idx, nil, c.st)
+		// arguments of the anchored call are available as arg0, arg1, ...
+		if call, ok := in.(*ssa.Call); ok {
+			for i, av := range call.Call.Args {
+				if _, isLv := f.lvals[av]; isLv {
+					continue
+				}
+				env.names[fmt.Sprintf("arg%d", i)] = f.val(av)
+				env.types[fmt.Sprintf("arg%d", i)] = av.Type()
+			}
+		}
+		t, err := env.evalBool(a.Clause.Expr)
+		if err != nil {
+			f.e.specError("%s: assert at %s: %v", f.e.Key, a.Anchor, err)
+			continue
+		}
+		f.e.addOblig("assert", a.Anchor+": "+a.Clause.Name, a.Clause.Props, f.e.P.position(in.Pos()), c.reach, t)
+	}
+}
+
+func calleeName(cc *ssa.CallCommon) string {
+	if cc.IsInvoke() {
+		return cc.Method.Name()
+	}
+	switch v := cc.Value.(type) {
+	case *ssa.Function:
+		if v.Pkg != nil {
+			return v.Pkg.Pkg.Name() + "." + v.RelString(v.Pkg.Pkg)
+		}
+		return v.Name()
+	case *ssa.Builtin:
+		return v.Name()
+	}
+	return cc.Value.Name()
 }
